@@ -111,6 +111,16 @@ def new_stream(run, n, bit_ok):
             flags.append("-opt")
         if sum(f.startswith("-tagcase") for f in flags) > 1:
             flags.remove("-tagcase=upper")
+        # every spelling of every flag: the other two tag cases, the long aliases, and the flags common to all subcommands
+        # (-sep/-separate, -v/-verbose, -ver=/-version=; -raw/-r writes unformatted source on purpose and is left out)
+        flags = [rng.choice(["-tagcase=lower", "-tagcase=camel", f]) if f.startswith("-tagcase") else f for f in flags]
+        tagcase = ([f.split("=")[1] for f in flags if f.startswith("-tagcase")] or ["camel"])[0]
+        has = {f: (f in flags) for f in ("-getset", "-json", "-opt", "-exp", "-short")}
+        alias = {"-opt": "-option", "-exp": "-exported"}
+        flags = [alias[f] if f in alias and rng.random() < 0.3 else f for f in flags]
+        for group in (["-sep", "-separate"], ["-v", "-verbose"], ["-ver=v9.9.9", "-version=v0.0.1-rc1"]):
+            if rng.random() < 0.2:
+                flags.append(rng.choice(group))
         tnames = [sd["name"] for sd in pkg["structs"]]
         mode = rng.choice(["single", "list", "file", "star"])
         files = dict(ctorgen.render_go(pkg, "c01mod"))
@@ -130,19 +140,30 @@ def new_stream(run, n, bit_ok):
         if "-short" in flags and len(types) > 1:
             # K_opt_short_collision (open): option names are shared by the types of one run
             flags = [f for f in flags if f != "-short"]
+            has["-short"] = False
             if mode == "star":
                 files = dict(ctorgen.render_go(pkg, "c01mod"))
                 files[fname] = files[fname].replace("\n\n", "\n\n//go:generate shoot new %s\n\n" % " ".join(flags + sel), 1)
-        fl = ("{| fl_getset := %s; fl_json := %s; fl_tagcase := TagCamel; fl_opt := %s; "
-              "fl_exp := %s; fl_short := %s |}" % (cb("-getset" in flags), cb("-json" in flags),
-                                                 cb("-opt" in flags), cb("-exp" in flags), cb("-short" in flags)))
+        fl = ("{| fl_getset := %s; fl_json := %s; fl_tagcase := Tag%s; fl_opt := %s; "
+              "fl_exp := %s; fl_short := %s |}" % (cb(has["-getset"]), cb(has["-json"]), tagcase.capitalize(),
+                                                 cb(has["-opt"]), cb(has["-exp"]), cb(has["-short"])))
         cpkg = ctorgen.coq_pkg(pkg)
         data = [("new", "GNewSpec %s %s 8 %s" % (cpkg, fl, cs(T))) for T in types]
-        feats = {"cmd-new", "new-mode-" + mode} | {"new" + f.split("=")[0] for f in flags}
+        feats = {"cmd-new", "new-mode-" + mode} | {"new" + f.split("=v")[0] for f in flags}
         pk = Pkg(name, files, [(["new"] + flags + sel, data)], feats, extra={"helper/helper.go": ctorgen.HELPER_GO})
         pk.run_types = [types]
         res.append(pk)
     return res
+
+
+def common_flags(rng, p=0.15):
+    """the flags every subcommand shares, in either spelling (they must not change what is generated, only where and how
+    loudly); -raw/-r writes unformatted source on purpose and is left out"""
+    out = []
+    for group in (["-sep", "-separate"], ["-v", "-verbose"], ["-ver=v9.9.9", "-version=v0.0.1-rc1"]):
+        if rng.random() < p:
+            out.append(rng.choice(group))
+    return out
 
 
 def rest_stream(run, n, bit_ok):
@@ -171,11 +192,14 @@ def rest_stream(run, n, bit_ok):
         else:
             sel, types = ["-type=*"], inames
             own[fname] = own[fname].replace("\n\n", "\n\n//go:generate shoot rest -type=*\n\n", 1)
+        sel = common_flags(rng) + sel
         byname = {i["name"]: i for i in pkg["ifaces"]}
         data = [("rest", "GRestSpec %s {| rd_type := %s; rd_methods := %s |}" % (
             clist(restgen.coq_mspec(m, pkg) for m in byname[T]["methods"]), cs(T),
             clist(cs(m["name"]) for m in byname[T]["methods"]))) for T in types]
-        res.append(Pkg(name, own, [(["rest"] + sel, data)], {"cmd-rest", "rest-mode-" + mode}, extra=extra))
+        res.append(Pkg(name, own, [(["rest"] + sel, data)],
+                       {"cmd-rest", "rest-mode-" + mode} | {"rest" + f.split("=v")[0] for f in sel if not f.startswith(("-type", "-file"))},
+                       extra=extra))
     return res
 
 
@@ -191,13 +215,16 @@ def map_stream(run, n, bit_ok):
         extra = {p: t for p, t in files.items() if not p.startswith(sub + "/src/")}
         extra["common/common.go"] = mapgen.COMMON_GO
         args = mapgen.shoot_args(spec)
+        cf_ = common_flags(rng)
+        args = args[:1] + cf_ + args[1:]
         to_name, from_name = mapgen.method_names(spec)
         key = spec["flags"]["alias"] or "dest"
         way = spec["flags"]["way"]
         ps = mapgen.render_coq_pair(spec)
         data = [("map", "GMapSpec %s {| md_type := %s; md_destpkg := %s; md_to := %s; md_from := %s |}" % (
             ps, cs(j["src"]), cs(key), cb(way != "fromonly"), cb(way != "toonly"))) for j in spec["jobs"]]
-        res.append(Pkg("src", own, [(args, data)], {"cmd-map", "map-way-" + way}, extra=extra, dir=sub + "/src"))
+        res.append(Pkg("src", own, [(args, data)], {"cmd-map", "map-way-" + way} | {"map" + f.split("=v")[0] for f in cf_},
+                       extra=extra, dir=sub + "/src"))
     return res
 
 
